@@ -211,4 +211,169 @@ theorem muxHandshake_tree_perm {a1 a2 c1 c2 : List (Nat × Nat)} (ha : a1.Perm a
     muxHandshakeTree a1 c1 = muxHandshakeTree a2 c2 := by
   simp only [muxHandshakeTree, capsOfList, btOfList_perm lawful_nat ha hna, btOfList_perm lawful_nat hc hnc]
 
+/-! ## std_conv.rs -/
+
+theorem bits_byte : ∀ (c : List Bool), c.length ≤ 8 →
+    bitsOfByte (byteOfBits c) = c ++ List.replicate (8 - c.length) false
+  | [], _ => by decide
+  | [a], _ => by revert a; decide
+  | [a, b], _ => by revert a b; decide
+  | [a, b, c], _ => by revert a b c; decide
+  | [a, b, c, d], _ => by revert a b c d; decide
+  | [a, b, c, d, e], _ => by revert a b c d e; decide
+  | [a, b, c, d, e, f], _ => by revert a b c d e f; decide
+  | [a, b, c, d, e, f, g], _ => by revert a b c d e f g; decide
+  | [a, b, c, d, e, f, g, h], _ => by revert a b c d e f g h; decide
+  | _ :: _ :: _ :: _ :: _ :: _ :: _ :: _ :: _ :: _, h => by simp at h
+
+theorem fromBytes_toBytes : ∀ (n : Nat) (l : List Bool), l.length ≤ n →
+    ∃ pad, fromBytes (toBytes l) = l ++ pad := by
+  intro n
+  induction n with
+  | zero =>
+    intro l h
+    have : l = [] := List.eq_nil_of_length_eq_zero (by omega)
+    subst this; exact ⟨[], by simp [toBytes, fromBytes]⟩
+  | succ n ih =>
+    intro l h
+    cases l with
+    | nil => exact ⟨[], by simp [toBytes, fromBytes]⟩
+    | cons b bs =>
+      rw [toBytes]
+      simp only [fromBytes, List.flatMap_cons]
+      have hlen : ((b :: bs).take 8).length ≤ 8 := by simp; omega
+      rw [bits_byte _ hlen]
+      have hdl : ((b :: bs).drop 8).length ≤ n := by
+        rw [List.length_drop]; simp only [List.length_cons] at h ⊢; omega
+      obtain ⟨pad, hpad⟩ := ih ((b :: bs).drop 8) hdl
+      simp only [fromBytes] at hpad
+      rw [hpad]
+      by_cases h8 : 8 ≤ (b :: bs).length
+      · have : ((b :: bs).take 8).length = 8 := by
+          rw [List.length_take]; simp only [List.length_cons] at h8 ⊢; omega
+        rw [this]
+        refine ⟨pad, ?_⟩
+        simp only [Nat.sub_self, List.replicate_zero, List.append_nil]
+        rw [← List.append_assoc, List.take_append_drop]
+      · have hd : (b :: bs).drop 8 = [] := List.drop_eq_nil_of_le (by omega)
+        have ht : (b :: bs).take 8 = b :: bs := List.take_of_length_le (by omega)
+        rw [hd, ht]
+        exact ⟨List.replicate (8 - (b :: bs).length) false ++ pad, by simp⟩
+
+/-- **BitVec**: every bit vector — of any length, also not a multiple of 8 — survives `build` then `read`. -/
+theorem bitvec_read_build (bits : List Bool) :
+    bitvecRead (bitvecBuild bits).1 (bitvecBuild bits).2 = .ok bits := by
+  obtain ⟨pad, hpad⟩ := fromBytes_toBytes bits.length bits (Nat.le_refl _)
+  simp [bitvecRead, bitvecBuild, hpad]
+
+theorem wrapI64_id (x : Int) (h1 : i64Min ≤ x) (h2 : x ≤ i64Max) : wrapI64 x = x := by
+  simp only [wrapI64, i64Min, i64Max] at *
+  omega
+
+/-- **Duration / Timestamp**: every `time::Duration` except those with `seconds = i64::MIN` and negative nanoseconds
+survives `build` then `read` (no panic, same value). -/
+theorem duration_read_build (d : Dur) (hv : d.Valid) (hmin : i64Min < d.secs ∨ 0 ≤ d.nanos) :
+    durRead (durBuild d).1 (durBuild d).2 = .ok d := by
+  obtain ⟨h1, h2, h3, h4, h5, h6⟩ := hv
+  obtain ⟨s, n⟩ := d
+  simp only [i64Min, i64Max, nanosPerSec] at *
+  by_cases hn : n < 0
+  · have hs : s ≤ 0 := by
+      by_cases h : 0 < s
+      · have := h5 h; omega
+      · omega
+    have hmin' : -(2 ^ 63) < s := by rcases hmin with h | h <;> omega
+    have hw : wrapI64 (s - 1) = s - 1 := wrapI64_id _ (by simp only [i64Min]; omega) (by simp only [i64Max]; omega)
+    have hd : Int.tdiv (n + 1000000000) 1000000000 = 0 := Int.tdiv_eq_zero_of_lt (by omega) (by omega)
+    have hm : Int.tmod (n + 1000000000) 1000000000 = n + 1000000000 := Int.tmod_eq_of_lt (by omega) (by omega)
+    simp only [durRead, durBuild, hn, if_true, hw, durFromParts, nanosPerSec, hd, hm, i64Min, i64Max, Int.add_zero,
+      Int.zero_add]
+    rw [if_neg (by omega), if_pos (by omega), if_neg (by omega)]
+    congr 2 <;> omega
+  · have hd : Int.tdiv n 1000000000 = 0 := Int.tdiv_eq_zero_of_lt (by omega) (by omega)
+    have hm : Int.tmod n 1000000000 = n := Int.tmod_eq_of_lt (by omega) (by omega)
+    simp only [durRead, durBuild, hn, if_false, durFromParts, nanosPerSec, hd, hm, i64Min, i64Max, Int.add_zero,
+      Int.zero_add]
+    have hs0 : ¬ (1000000000 ≤ n ∨ (s < 0 ∧ 0 < n)) := by
+      intro h; rcases h with h | ⟨h, h'⟩
+      · omega
+      · have := h6 h; omega
+    have hs1 : ¬ (n ≤ -1000000000 ∨ (0 < s ∧ False)) := by
+      intro h; rcases h with h | ⟨_, h⟩
+      · omega
+      · exact h
+    rw [if_neg (by omega), if_neg hs0, if_neg hs1]
+
+/-- the excluded corner really is excluded for a reason: `Duration::MIN` does not survive (release profile: the
+decrement wraps) -/
+theorem duration_min_not_roundtrip :
+    durRead (durBuild ⟨i64Min, -1⟩).1 (durBuild ⟨i64Min, -1⟩).2 ≠ .ok ⟨i64Min, -1⟩ := by decide
+
+/-- **SocketAddr** (ip + port). -/
+theorem sockaddr_read_build (a : SockAddr) (hv : a.Valid) :
+    sockRead (sockBuild a).1 (sockBuild a).2 = .ok a := by
+  obtain ⟨h1, h2⟩ := hv
+  simp [sockRead, sockBuild, h1, h2]
+
+/-! ## schedule.rs : `Schedule::new` does not depend on the order in which the validators are listed -/
+
+theorem any_btInsert {κ ν : Type} {cmp : κ → κ → Ordering} (hc : LawfulCmp cmp) (m : List (κ × ν)) (k k' : κ) (v : ν) :
+    (btInsert cmp m k v).any (fun p => cmp p.1 k' == .eq) = (cmp k k' == .eq || m.any (fun p => cmp p.1 k' == .eq)) := by
+  induction m with
+  | nil => simp [btInsert]
+  | cons q rest ih =>
+    obtain ⟨k2, v2⟩ := q
+    simp only [btInsert]
+    cases h : cmp k k2
+    · simp
+    · have := (hc.eq_iff k k2).mp h; subst this
+      simp
+    · simp only [List.any_cons, ih]
+      cases cmp k2 k' == .eq <;> cases cmp k k' == .eq <;> simp
+
+theorem scheduleLoop_swap (x y : ValidatorInfo) (l : List ValidatorInfo) (map : List (Bytes × ValidatorInfo))
+    (total : Nat) : scheduleLoop (x :: y :: l) map total = scheduleLoop (y :: x :: l) map total := by
+  simp only [scheduleLoop, any_btInsert lawful_cmpBytes]
+  have hsw : (cmpBytes x.key y.key == .eq) = (cmpBytes y.key x.key == .eq) := by
+    rw [lawful_cmpBytes.swap x.key y.key]; cases cmpBytes x.key y.key <;> rfl
+  cases hmx : map.any (fun p => cmpBytes p.1 x.key == .eq) <;>
+  cases hmy : map.any (fun p => cmpBytes p.1 y.key == .eq) <;>
+  cases hxy : (cmpBytes x.key y.key == .eq) <;>
+  simp only [← hsw, hxy, Bool.false_or, Bool.true_or, Bool.false_eq_true, if_false, if_true] <;>
+  by_cases hwx : x.weight = 0 <;> by_cases hwy : y.weight = 0 <;>
+  simp only [hwx, hwy, if_true, if_false] <;>
+  by_cases ho1 : 2 ^ 64 ≤ total + x.weight <;> by_cases ho2 : 2 ^ 64 ≤ total + y.weight <;>
+  simp only [ho1, ho2, if_true, if_false] <;>
+  by_cases ho3 : 2 ^ 64 ≤ total + x.weight + y.weight <;>
+  (try (have ho4 : 2 ^ 64 ≤ total + y.weight + x.weight := by omega)) <;>
+  (try (have ho4 : ¬ 2 ^ 64 ≤ total + y.weight + x.weight := by omega)) <;>
+  simp only [ho3, ho4, if_true, if_false] <;>
+  (try omega) <;> (try (split <;> rfl))
+  have hne : x.key ≠ y.key := by
+    intro h
+    have := (lawful_cmpBytes.eq_iff x.key y.key).mpr h
+    simp [this] at hxy
+  rw [btInsert_comm lawful_cmpBytes map x.key y.key x y hne, Nat.add_right_comm]
+
+/-- **`Schedule::new` is independent of the order of its input**: same acceptance, same schedule. -/
+theorem scheduleNew_perm {l1 l2 : List ValidatorInfo} (hp : l1.Perm l2) (sel : LeaderSelection) :
+    scheduleNew l1 sel = scheduleNew l2 sel := by
+  have key : ∀ (map : List (Bytes × ValidatorInfo)) (total : Nat),
+      scheduleLoop l1 map total = scheduleLoop l2 map total := by
+    induction hp with
+    | nil => intro _ _; rfl
+    | cons x _ ih =>
+      intro map total
+      simp only [scheduleLoop]
+      split
+      · rfl
+      · split
+        · rfl
+        · split
+          · rfl
+          · exact ih _ _
+    | swap x y l => intro map total; exact scheduleLoop_swap y x l map total
+    | trans _ _ ih1 ih2 => intro map total; rw [ih1, ih2]
+  simp only [scheduleNew, key]
+
 end EraVerif.Proofs.Conv
